@@ -157,6 +157,17 @@ def _signame(rc):
         return "SIG%d" % -rc
 
 
+def _no_progress_for(info, outdir, now):
+    """Seconds since the process last started or finished a case (progress file). The outer watchdog is a
+    per-case limit: the total run time of a slice is bounded by its case count, not by wall-clock."""
+    prog = _read_progress(outdir, info["sub"])
+    mark = (prog[0], prog[2]) if prog else None
+    if mark != info.get("last_mark"):
+        info["last_mark"] = mark
+        info["last_change"] = now
+    return now - info.get("last_change", info["t0"])
+
+
 class Stage:
     """One harness on one library variant."""
 
@@ -329,7 +340,7 @@ def run_stage(prop, stage, tier, seed, workdir, log):
                 harness_fail.append("unreadable summary %s" % sp)
         if crashed:
             if timed_out:
-                obs.append(Observation("%s:hang:%s" % (prop, stage.name), "no progress within %ds (case %s)" % (
+                obs.append(Observation("%s:hang:%s" % (prop, stage.name), "no case started or finished for %ds (case %s)" % (
                     stage.per_proc_timeout, cur_case), stage, cur_case, errtxt[-2000:], sub))
             elif rc == 3:
                 pass  # in-harness watchdog: the violation record is already in the viol file
@@ -370,7 +381,7 @@ def run_stage(prop, stage, tier, seed, workdir, log):
             if rc is not None:
                 del running[pid]
                 handle_exit(info, rc, False)
-            elif now - info["t0"] > stage.per_proc_timeout:
+            elif _no_progress_for(info, outdir, now) > stage.per_proc_timeout:
                 try:
                     os.killpg(os.getpgid(pid), signal.SIGKILL)
                 except OSError:
